@@ -78,7 +78,7 @@ type c08cfg struct {
 
 type c08stats struct {
 	maxLen, evictions, removeThenAccess, zeroPuts, tooLarge, replacing, clears, hookChecks int
-	odd                                                                                  int64
+	odd                                                                                    int64
 }
 
 func sortEntries(es []lruEntry) {
